@@ -331,7 +331,7 @@ fn gen_request(rng: &mut Rng, limit: usize) -> Vec<u8> {
 
 fn gen_stream(rng: &mut Rng, limit: usize) -> Vec<u8> {
     let mut s = vec![];
-    for _ in 0..(1 + rng.below(4)) { s.extend(gen_request(rng, limit)); }
+    for _ in 0..(1 + rng.below(4)) { s.extend(gen_request(rng, limit)); if rng.chance(6) { s.extend_from_slice(b"\r\n"); } }
     if rng.chance(30) { let cut = rng.below(s.len()); s.truncate(cut.max(1)); }
     s
 }
@@ -383,19 +383,19 @@ fn search_stream(prop: &str, budget: usize) {
             if first.is_none() { first = Some(got); }
         }
     }
-    if prop == "C04" { search_server_limits(); }
+    if prop == "C04" { search_server_limits(); search_c11("C04", (budget / 4).max(200)); }
     println!("{{\"status\":\"not-found\",\"tried\":{}}}", tried);
 }
 
-fn search_c11(budget: usize) {
+fn search_c11(prop: &str, budget: usize) {
     let mut rng = Rng(0x2545F4914F6CDD1D);
     let bad: Vec<Vec<u8>> = vec![
         b"GET /rejected HTTP/1.1\r\nContent-Length: abc\r\n".to_vec(),
         b"GET /rejected HTTP/1.1\r\nContent-Length: abc\r\n\r\n".to_vec(),
         b"GET /x HTTQ/1.1\r\n\r\n".to_vec(),
         b"BAD /x HTTP/1.1\r\n".to_vec(),
-        b"PUT /big HTTP/1.1\r\nContent-Length: 99999\r\n\r\n".to_vec(),
-        b"PUT /big HTTP/1.1\r\nExpect: 100-continue\r\nContent-Length: 99999\r\n\r\n".to_vec(),
+        b"PUT /big HTTP/1.1\r\nContent-Length: 999999\r\n\r\n".to_vec(),
+        b"PUT /big HTTP/1.1\r\nExpect: 100-continue\r\nContent-Length: 999999\r\n\r\n".to_vec(),
         b"PUT /b HTTP/1.1\r\nContent-Length: 4\r\nnocolon\r\n".to_vec(),
         // over-long lines: exactly 1024 bytes without CRLF, so that nothing of A is left in the socket at the error
         { let mut v = b"GET /".to_vec(); v.extend(vec![b'a'; 1019]); v },
@@ -411,8 +411,9 @@ fn search_c11(budget: usize) {
             pre.extend(a);
             a = pre;
         }
-        let limit = 51200;
-        let b = gen_stream(&mut rng, 40);
+        // "a newly created connection with the SAME configuration": the payload limit is varied, and B has bodies around it
+        let limit = [51200usize, 40, 1500, 100000][rng.below(4)];
+        let b = gen_stream(&mut rng, limit.min(1500));
         let (mut c, mut tx) = new_conn(Some(limit));
         let max = [1usize, 3, 10, 1024][rng.below(4)];
         let sa = segment(&mut rng, &a, max, false);
@@ -420,8 +421,8 @@ fn search_c11(budget: usize) {
         if first.error.is_none() { tried += 1; continue; }
         // "no part of the rejected input is retained": that includes an interim response queued on its behalf
         let ra = reference(&a, limit);
-        if ra.error.is_some() && first.delivered == ra.delivered && first.continues.len() > ra.continues.len() {
-            found("C11", format!("A reads: {} (error {:?})", show_segs(&sa), first.error),
+        if prop == "C11" && ra.error.is_some() && first.delivered == ra.delivered && first.continues.len() > ra.continues.len() {
+            found(prop, format!("A reads: {} (error {:?})", show_segs(&sa), first.error),
                   format!("{} interim 100-continue responses left queued by the rejected input", first.continues.len() - ra.continues.len()),
                   format!("{} (those of the requests delivered before the error)", ra.continues.len()));
         }
@@ -432,7 +433,7 @@ fn search_c11(budget: usize) {
         let fresh = drive(&mut f, &mut ftx, &sb);
         tried += 1;
         if after != fresh {
-            found("C11", format!("A reads: {} (error {:?}) then B reads: {}", show_segs(&sa), first.error, show_segs(&sb)),
+            found(prop, format!("A reads: {} (error {:?}) then B reads: {}", show_segs(&sa), first.error, show_segs(&sb)),
                   format!("{:?}", after), format!("a new connection: {:?}", fresh));
         }
     }
@@ -730,6 +731,9 @@ fn search_c03_receives() {
         ("a stream that always answers EINTR", vec![], libc::EINTR),
         ("a stream that always answers EAGAIN", vec![], libc::EAGAIN),
         ("connection reset", vec![Err(libc::ECONNRESET)], libc::EAGAIN),
+        ("a malformed request line, then would-block", vec![Ok(b"BAD / HTTP/1.1\r\n\r\n".to_vec())], libc::EAGAIN),
+        ("a header fault, then more data", vec![Ok(b"GET / HTTP/1.1\r\nContent-Length: x\r\n\r\n".to_vec()), Ok(b"GET / HTTP/1.1\r\n\r\n".to_vec())], libc::EAGAIN),
+        ("an oversized declaration, then would-block", vec![Ok(b"PUT / HTTP/1.1\r\nContent-Length: 9999999\r\n\r\n".to_vec())], libc::EAGAIN),
     ];
     for (what, script, tail) in scripts {
         let calls = std::rc::Rc::new(std::cell::Cell::new(0usize));
@@ -1106,6 +1110,7 @@ impl EndpointHandler<u8> for CountingHandler {
         let mut r = Response::new(Version::Http11, StatusCode::OK);
         r.set_body(Body::new(format!("handler-{}", self.id)));
         r.set_server("set-by-handler");
+        if self.id % 2 == 0 { r.set_content_type(MediaType::PlainText); }
         r
     }
 }
@@ -1372,6 +1377,26 @@ fn search_server_blocking() {
 fn search_server_histories(prop: &str) {
     if prop == "C09" { search_server_blocking(); }
     if prop == "C07" {
+        // H7: answers supplied while earlier ones are partly flushed keep the order the application supplied
+        {
+            let what = "one client pipelines /o/r0 /o/r1 /o/r2; the application answers r0 and r1; the server is polled once; r2 is answered; everything is flushed";
+            let mut s = Srv::new("C07h7");
+            let mut c = s.connect(prop, what);
+            let _ = c.write_all(b"GET /o/r0 HTTP/1.1\r\n\r\nGET /o/r1 HTTP/1.1\r\n\r\nGET /o/r2 HTTP/1.1\r\n\r\n");
+            s.pump(prop, what);
+            if s.outstanding.len() == 3 {
+                s.answer("/o/r0"); s.answer("/o/r1");
+                if ready(&s.server) { if let Ok(v) = s.server.requests() { s.outstanding.extend(v); } }
+                s.answer("/o/r2");
+                s.pump(prop, what);
+                let mut w = vec![]; peek_some(&mut c, &mut w);
+                let t = String::from_utf8_lossy(&w).to_string();
+                let pos: Vec<Option<usize>> = ["echo:/o/r0", "echo:/o/r1", "echo:/o/r2"].iter().map(|k| t.find(k)).collect();
+                let ok = match (pos[0], pos[1], pos[2]) { (Some(a), Some(b), Some(c2)) => a < b && b < c2, _ => false } && t.matches("echo:/o/").count() == 3;
+                if !ok { s.done(); found(prop, what.into(), format!("the client received {}", esc(&w)), "the answers to r0, r1, r2 in that order, once each".into()); }
+            }
+            s.done();
+        }
         // H6: at full capacity a hung-up connection that is still owed a response keeps its slot (and its descriptor number);
         //     the eleventh client is refused, and the late answer reaches nobody
         {
@@ -1518,7 +1543,7 @@ fn main() {
         "C06" => search_c06(budget),
         "C07" | "C09" => search_server(prop, budget),
         "C04s" => { search_server_limits(); println!("{{\"status\":\"not-found\",\"tried\":7}}"); }
-        "C11" => search_c11(budget),
+        "C11" => search_c11("C11", budget),
         "C12" => search_c12(budget),
         "C16" => search_c16(budget),
         "C14" => search_c14(budget),
